@@ -338,6 +338,11 @@ def monitor(script, impl_line):
                 (i, j), ":".join(op), r[0], "" if close_t is None else " (closed at %d)" % close_t))
         if real and r is not None and close_t is None and (i, j) not in chan_order:
             return ("dropped", "call %s returned but its task is nowhere" % ((i, j),))
+        # nil handler / nil task
+        if op[0] == "n" and (r is None or r[0] != tc or r[1] != "E"):
+            return ("nil-handler", "SendCallback(nil) at %d: %s (want an already completed empty task at once)" % (tc, r))
+        if op[0] == "z" and (r is None or r[0] != tc or r[1] != "N"):
+            return ("nil-task", "SendTask(nil) at %d: %s" % (tc, r))
         # send after close never blocks
         if close_t is not None:
             if tc >= close_t and (r is None or r[0] != tc):
@@ -346,11 +351,6 @@ def monitor(script, impl_line):
             if tc < close_t and (r is None or r[0] > close_t):
                 return ("blocks-after-close", "call %s made at %d was still blocked after the close at %d (%s)" % (
                     (i, j), tc, close_t, "never returned" if r is None else "returned at %d" % r[0]))
-        # nil handler / nil task
-        if op[0] == "n" and (r is None or r[0] != tc or r[1] != "E"):
-            return ("nil-handler", "SendCallback(nil) at %d: %s (want an already completed empty task at once)" % (tc, r))
-        if op[0] == "z" and (r is None or r[0] != tc or r[1] != "N"):
-            return ("nil-task", "SendTask(nil) at %d: %s" % (tc, r))
         # a full open queue blocks the sender (so nothing is dropped): covered by 'dropped'
     # Get
     for k, gi in log.g.items():
